@@ -17,7 +17,7 @@ RULE = (
     "union in sample-number order; thresholds; sampled flags) and, through prep_comparison_sample + mvrs_to_data with a "
     "recording overstatement assorter, the cards that feed each contest's assertion must be exactly those n_c cards in "
     "order.  Every case is re-run with phantom flags and vote contents changed (selection must not move).  "
-    "assign_sample_nums is compared with an independent SHA-256 stream for a seed menu.  Non-trivial = case in which a "
+    "Plus lists of 40/90/150/1200 cards in which the second contest is on every 7th/12th/40th/400th card only.  assign_sample_nums is compared with an independent SHA-256 stream for a seed menu.  Non-trivial = case in which a "
     "card is skipped or serves two contests; distinct = distinct (styles, order, sizes, selection)"
 )
 ASSUMPTIONS = [
@@ -140,6 +140,17 @@ def run_shard(sh, rec):
                 for key, what in v:
                     rec.violate(key, what, {"kind": "seed", "seed": seed, "n": n})
         return
+    if sh[0] == "sparse":
+        for styles, nums, sizes in sparse_cases():
+            rec.state()
+            rec.trans()
+            rec.evals(2)
+            rec.trace()
+            rec.vac("sparse_large_lists")
+            v, obs, want = judge(["c1", "c2"], styles, nums, sizes)
+            for key, what in v:
+                rec.violate(key, what[:400], {"kind": "sample", "ids": ["c1", "c2"], "styles": [list(s_) for s_ in styles], "nums": nums, "sizes": sizes})
+        return
     _, k, n, first_style, first_num = sh
     ids = s4.CONTESTS[:k]
     menu = s4.style_menu(k)
@@ -148,7 +159,9 @@ def run_shard(sh, rec):
         for perm in itertools.permutations(range(n)):
             if perm[0] != first_num:
                 continue
-            nums = [10 * p for p in perm]  # the smallest sample number is 0
+            # the smallest sample number is 0; in the second numbering the numbers are huge and differ by 1 part in 10^18,
+            # as hashed sample numbers are (far below any floating-point tolerance)
+            nums = [10 * p for p in perm] if (sum(perm[:2]) + first_style) % 2 == 0 else [10 ** 18 + p for p in perm]
             rec.state()
             for sizes, avail in size_vectors(ids, styles):
                 rec.trans()
@@ -176,6 +189,20 @@ def run_shard(sh, rec):
                     rec.violate(key, what, {"kind": "sample", "ids": ids, "styles": [list(s) for s in styles], "nums": nums, "sizes": sizes})
                 if rec.want_sample((styles, nums, sorted(sizes.items()))):
                     rec.sample({"styles": [list(s) for s in styles], "sample_nums": nums, "sizes": sizes, "selected": obs.get("sel"), "thresholds": obs.get("thr")})
+
+
+def sparse_cases():
+    """larger lists: c1 on every card, c2 on every q-th card only; identity / reversed / interleaved sample-number orders"""
+    for n, q in ((40, 7), (90, 12), (150, 40), (1200, 400)):
+        styles = [("c1", "c2") if i % q == q - 1 else ("c1",) for i in range(n)]
+        a2 = sum(1 for s in styles if "c2" in s)
+        for order in ("id", "rev", "mix"):
+            nums = {"id": list(range(n)), "rev": list(range(n - 1, -1, -1)), "mix": [(i * 37) % n for i in range(n)]}[order]
+            if len(set(nums)) != n:
+                continue
+            for s1_ in (0, 1, 5):
+                for s2_ in range(0, a2 + 1):
+                    yield styles, [10 ** 18 + x for x in nums], {"c1": s1_, "c2": s2_}
 
 
 def judge_seed(seed, n):
@@ -212,7 +239,7 @@ def judge_seed(seed, n):
 
 
 def explore(tier, seed):
-    sh = [("seeds",)]
+    sh = [("seeds",), ("sparse",)]
     for k, maxn in PLAN[tier]:
         for n in range(1, maxn + 1):
             for fs in range(len(s4.style_menu(k))):
